@@ -94,3 +94,14 @@ claim('C17',
       '2-D up to 3x3, 3-D 2x2x2(3); aesthetics n<=3 (5), 4 methods (not damp); skymask up to 2x3 (2x4, 1x5). Floats exact reals; sigma, limits >= 0; '
       'numpy.interp and scipy medfilt by their definitions; axis of djs_maskinterp counted IDL-style as the code does; djs_reject without '
       'sigma/invvar and its maxrej/group options not covered.', 'DESIGN.md 4/C17')
+claim('C13',
+      'flegendre / fchebyshev / fpoly / fchebyshev_split are executed with a symbolic abscissa x in [-1,1] (scalar and array call forms) and '
+      'each of the first 8 (12 thorough) functions is shown to lie within 1e-9 of the textbook polynomial for EVERY x (univariate polynomial '
+      'inequalities decided by z3). func_fit runs with a symbolic data vector y (and symbolic fixed-parameter values) on exact abscissa / '
+      'weight / fixed-parameter / inputfunc families: free coefficients satisfy the weighted normal equations built from the harness\'s own '
+      'textbook basis, fixed ones keep their values, zero-weight y_i do not occur in the result, exact basis combinations are recovered. '
+      'TraceSet: fit then xy() at the same positions returns yfit for every y, with and without the BOSS x-jump; the default grid runs '
+      'from xmin to xmax in unit steps.',
+      'numpy.linalg.solve is an exact-rational contract stub; scipy\'s stored polynomial coefficients are floats, hence 1e-9 (relative to '
+      'sum |y|) tolerances for Legendre/Chebyshev beyond order 2, exact equality for the monomial basis; abscissae inside the solve are '
+      'concrete; FITS-record constructor of TraceSet not covered.', 'DESIGN.md 4/C13')
